@@ -257,8 +257,59 @@ def item_codegen(repo):
     return out
 
 
+def item_admit(repo):
+    """inbound admission decision of handle_incoming_task -> Lean `admitGen`"""
+    s = strip_comments(read(repo, 'crates/anemo/src/network/connection_manager.rs'))
+    fn = block_after(s, r'async\s+fn\s+handle_incoming_task\s*\(')
+    mt = block_after(fn, r'match\s+known_peers\.get\(\s*&connection\.peer_id\(\)\s*\)\s*\{')
+    # arms: Some(PeerInfo { affinity: A | B, .. }) => { ... }   and   _ => { ... }
+    arms = []
+    pos = 0
+    while True:
+        m = re.compile(r'(Some\(\s*PeerInfo\s*\{\s*affinity\s*:\s*([^,]+),\s*\.\.\s*,?\s*\}\s*\)|_)\s*=>\s*\{').search(mt, pos)
+        if not m:
+            break
+        i = m.end() - 1
+        depth = 0
+        for j in range(i, len(mt)):
+            if mt[j] == '{': depth += 1
+            elif mt[j] == '}':
+                depth -= 1
+                if depth == 0: break
+        arms.append((m.group(2), mt[i + 1:j]))
+        pos = j + 1
+    if len(arms) != 3 or arms[-1][0] is not None:
+        raise ValueError('admission match: expected two affinity arms and a default arm')
+    lines = ['def admitGen (aff : Option Affinity) (limit : Option Nat) (active : Nat) : Bool :=', '  match aff with']
+    seen = set()
+    for pat, body in arms[:2]:
+        affs = [a.strip().replace('PeerAffinity::', '') for a in pat.split('|')]
+        rejects = 'return Err' in body
+        if not rejects and body.strip() != '':
+            raise ValueError('admission pass-through arm is not empty')
+        for a in affs:
+            if a not in ('High', 'Allowed', 'Never') or a in seen:
+                raise ValueError('admission arm affinity ' + a)
+            seen.add(a)
+            lines.append(f'  | some .{a.lower()} => {"false" if rejects else "true"}')
+    if seen != {'High', 'Allowed', 'Never'}:
+        raise ValueError('admission arms do not cover the three affinities')
+    body = arms[2][1]
+    m = re.search(r'if\s+let\s+Some\(limit\)\s*=\s*config\.max_concurrent_connections\(\)\s*\{(.*)\}', body, flags=re.S)
+    if not m:
+        raise ValueError('admission default arm: limit lookup')
+    m2 = re.search(r'if\s+active_peers\.len\(\)\s*(>=|>|<=|<|==)\s*limit\s*\{\s*return\s+Err', m.group(1))
+    if not m2:
+        raise ValueError('admission default arm: comparison')
+    op = {'>=': '≥', '<=': '≤', '==': '='}.get(m2.group(1), m2.group(1))
+    lines.append('  | none => match limit with')
+    lines.append('    | none => true')
+    lines.append(f'    | some l => !decide (active {op} l)')
+    return '\n'.join(lines) + '\n'
+
+
 ITEMS = [('ANEMO', item_anemo), ('Version', item_version), ('StatusCode', item_status),
-         ('headers', item_headers), ('ConfigDefaults', item_config), ('tieBreak', item_tiebreak), ('codegen', item_codegen)]
+         ('headers', item_headers), ('ConfigDefaults', item_config), ('tieBreak', item_tiebreak), ('codegen', item_codegen), ('admit', item_admit)]
 
 HEADER = '''/- GENERATED by /verif/tools/gen.py from /repo's working tree on every run -- do not edit. -/
 import AnemoModel.Basic
@@ -267,6 +318,12 @@ namespace Anemo
 inductive Origin where
   | inbound
   | outbound
+  deriving DecidableEq, Repr, Inhabited
+
+inductive Affinity where
+  | high
+  | allowed
+  | never
   deriving DecidableEq, Repr, Inhabited
 
 namespace Gen
